@@ -27,6 +27,7 @@ import (
 	"io"
 	"os"
 	"os/exec"
+	"runtime/debug"
 	"sort"
 	"strings"
 	"time"
@@ -106,7 +107,11 @@ func (t *GT) text(name func(int) string) string {
 	case "Struct":
 		ms := make([]string, len(t.Sub))
 		for i, s := range t.Sub {
-			ms[i] = t.Names[i] + "=>" + s.text(name)
+			if n := t.Names[i]; strings.HasPrefix(n, "?") {
+				ms[i] = "Optional[" + n[1:] + "]=>" + s.text(name) // a key that may be absent
+			} else {
+				ms[i] = n + "=>" + s.text(name)
+			}
 		}
 		return "Struct[{" + strings.Join(ms, ", ") + "}]"
 	case "Tuple", "Variant", "Array", "Hash", "Optional", "NotUndef":
@@ -137,7 +142,11 @@ func (t *GT) build(alias func(int) px.Type) px.Type {
 	case "Struct":
 		es := make([]*types.StructElement, len(t.Sub))
 		for i, s := range t.Sub {
-			es[i] = types.NewStructElement(types.WrapString(t.Names[i]), s.build(alias))
+			if n := t.Names[i]; strings.HasPrefix(n, "?") {
+				es[i] = types.NewStructElement(types.NewOptionalType(types.WrapString(n[1:]).PType()), s.build(alias))
+			} else {
+				es[i] = types.NewStructElement(types.WrapString(n), s.build(alias))
+			}
 		}
 		return types.NewStructType(es)
 	case "Tuple":
@@ -219,6 +228,10 @@ func ladderBody(kind string, fan int, next *GT, back *GT) *GT {
 		return gCallable(next, refs(fan-1)...)
 	case "Hash":
 		return gW("Hash", gW("NotUndef", next), next)
+	case "Arr": // a chain Array[Array[...]]: an actual Tuple is decomposed against it slot by slot
+		return gW("Array", next)
+	case "HashStr": // a chain Hash[String, Hash[String, ...]]: an actual Struct is decomposed against it
+		return gW("Hash", gStr, next)
 	}
 	panic("ladderBody: " + kind)
 }
@@ -349,6 +362,196 @@ func aliasGraphs(rng *lib.Rng, thorough bool) []*GSpec {
 		out = append(out, g)
 	}
 	sort.SliceStable(out, func(i, j int) bool { return len(out[i].Bodies) < len(out[j].Bodies) })
+	return out
+}
+
+
+// ---- pairs: BOTH sides graphs of aliases ----
+
+// GPair is an expected graph and a different graph for the actual type
+type GPair struct {
+	Fam  string
+	E, A *GSpec
+}
+
+func (g *GSpec) clone() *GSpec {
+	b, _ := json.Marshal(g)
+	c := &GSpec{}
+	if err := json.Unmarshal(b, c); err != nil {
+		panic(err)
+	}
+	return c
+}
+
+func (t *GT) leaves(out *[]*GT) {
+	if t == nil {
+		return
+	}
+	if t.K == "Int" || t.K == "Str" {
+		*out = append(*out, t)
+	}
+	for _, s := range t.Sub {
+		s.leaves(out)
+	}
+	t.Ret.leaves(out)
+}
+
+// mutateLeaf: a second declaration of the same graph that differs in its k-th Integer / String leaf (the other of
+// the two); nil when the graph has no such leaf. nLeaves = number of leaves of the graph.
+func mutateLeaf(g *GSpec, k int) (m *GSpec, nLeaves int) {
+	c := g.clone()
+	var ls []*GT
+	for _, b := range c.Bodies {
+		b.leaves(&ls)
+	}
+	c.Top.leaves(&ls)
+	if len(ls) == 0 {
+		return nil, 0
+	}
+	l := ls[k%len(ls)]
+	if l.K == "Int" {
+		l.K = "Str"
+	} else {
+		l.K = "Int"
+	}
+	c.Fam = g.Fam + "-leaf" + fmt.Sprint(k%len(ls))
+	return c, len(ls)
+}
+
+// recursive declarations: the alias refers to itself at a position the describers decompose; `leaf` is where two
+// declarations differ
+var recKinds = []struct {
+	name string
+	body func(self, leaf *GT) *GT
+}{
+	{"struct-optkey", func(self, leaf *GT) *GT { return gStruct([]string{"v", "?next"}, leaf, self) }},
+	{"struct-optkey-first", func(self, leaf *GT) *GT { return gStruct([]string{"?next", "v"}, self, leaf) }},
+	{"struct-optval", func(self, leaf *GT) *GT { return gStruct([]string{"v", "next"}, leaf, gW("Optional", self)) }},
+	{"struct-tree", func(self, leaf *GT) *GT { return gStruct([]string{"?left", "?right", "v"}, self, self, leaf) }},
+	{"tuple", func(self, leaf *GT) *GT { return gW("Tuple", leaf, gW("Optional", self)) }},
+	{"array", func(self, leaf *GT) *GT { return gW("Array", gW("Variant", leaf, self)) }},
+	{"hash", func(self, leaf *GT) *GT { return gW("Hash", gStr, gW("Variant", leaf, self)) }},
+	{"variant", func(self, leaf *GT) *GT { return gW("Variant", leaf, gW("Array", self)) }},
+	{"variant-struct", func(self, leaf *GT) *GT {
+		return gW("Variant", gStruct([]string{"v", "?next"}, leaf, self), gW("Array", leaf))
+	}},
+	{"callable", func(self, leaf *GT) *GT { return gCallable(gW("Optional", self), leaf) }},
+}
+
+var pairTops = []struct {
+	name string
+	top  func(*GT) *GT
+}{
+	{"top", idTop},
+	{"in-struct", func(t *GT) *GT { return gStruct([]string{"head"}, t) }},
+	{"in-struct-optkey", func(t *GT) *GT { return gStruct([]string{"n", "?head"}, gInt, t) }},
+	{"in-array", func(t *GT) *GT { return gW("Array", t) }},
+	{"in-tuple", func(t *GT) *GT { return gW("Tuple", t, t) }},
+	{"in-optional", func(t *GT) *GT { return gW("Optional", t) }},
+	{"in-hash", func(t *GT) *GT { return gW("Hash", gStr, t) }},
+	{"in-variant", func(t *GT) *GT { return gW("Variant", t, gW("Array", t)) }},
+}
+
+// aliasPairs: two DIFFERENT declarations on the two sides - recursive aliases of every decomposed constructor that
+// differ in a leaf (List1 / List2), in an additional optional key (List3), in the constructor (Hash against Struct,
+// Array against Tuple, ...), mutually recursive pairs, at the top and below every constructor; and every small graph
+// of aliasGraphs against copies of itself that differ in one leaf
+func aliasPairs(rng *lib.Rng, graphs []*GSpec, thorough bool) []*GPair {
+	var out []*GPair
+	one := func(fam string, body, top *GT) *GSpec {
+		return &GSpec{Fam: fam, Route: "parsed", Bodies: []*GT{body}, Top: top}
+	}
+	// every small graph against copies of itself that differ in one leaf (the first, the middle, the last one)
+	for _, g := range graphs {
+		if !g.Twin {
+			continue
+		}
+		_, n := mutateLeaf(g, 0)
+		if n == 0 {
+			continue
+		}
+		ks := map[int]bool{0: true, n / 2: true, n - 1: true}
+		if g.Fam == "random" || thorough {
+			ks[rng.Intn(n)] = true
+		}
+		idx := make([]int, 0, len(ks))
+		for k := range ks {
+			idx = append(idx, k)
+		}
+		sort.Ints(idx)
+		for _, k := range idx {
+			m, _ := mutateLeaf(g, k)
+			out = append(out, &GPair{Fam: "leaf-twin." + g.Fam, E: g, A: m})
+		}
+	}
+	// ladders of different constructors on the two sides, aliases directly at the positions the describers pair
+	// (Array chain / Tuple ladder, Hash chain / Struct ladder, ...), the bottoms differ
+	crossKinds := []string{"Struct", "Tuple", "ArrTuple", "Hash", "VarArrHash", "Arr", "HashStr"}
+	for _, n := range []int{2, 3} {
+		for i, k1 := range crossKinds {
+			for j, k2 := range crossKinds {
+				if i == j {
+					continue
+				}
+				route := []string{"ctor", "parsed"}[(i+j+n)%2]
+				out = append(out, &GPair{Fam: "cross." + k1 + "-" + k2, E: ladder(k1, n, 2, gInt, route, idTop, false), A: ladder(k2, n, 2, gStr, route, idTop, false)})
+			}
+		}
+	}
+	self := gAl(0)
+	add := func(fam string, e, a func(top func(*GT) *GT) *GSpec) {
+		for _, w := range pairTops {
+			out = append(out, &GPair{Fam: fam + "." + w.name, E: e(w.top), A: a(w.top)},
+				&GPair{Fam: fam + "." + w.name + ".swapped", E: a(w.top), A: e(w.top)})
+		}
+	}
+	for _, k := range recKinds {
+		k := k
+		mk := func(leaf *GT) func(top func(*GT) *GT) *GSpec {
+			return func(top func(*GT) *GT) *GSpec { return one("rec-"+k.name, k.body(self, leaf), top(self)) }
+		}
+		add("rec2."+k.name, mk(gInt), mk(gStr))
+	}
+	// one more optional key on one side (List1 / List3), one key less
+	list := func(names []string, sub ...*GT) func(top func(*GT) *GT) *GSpec {
+		return func(top func(*GT) *GT) *GSpec { return one("rec-list", gStruct(names, sub...), top(self)) }
+	}
+	add("rec2.extra-optional-key", list([]string{"v", "?next"}, gInt, self), list([]string{"v", "?next", "?tag"}, gInt, self, gStr))
+	add("rec2.extra-required-key", list([]string{"v", "?next"}, gInt, self), list([]string{"v", "?next", "tag"}, gInt, self, gStr))
+	add("rec2.other-key", list([]string{"v", "?next"}, gInt, self), list([]string{"v", "?prev"}, gInt, self))
+	// different constructors on the two sides that the describers pair: Hash / Struct, Array / Tuple
+	kind := func(name string) func(self, leaf *GT) *GT {
+		for _, k := range recKinds {
+			if k.name == name {
+				return k.body
+			}
+		}
+		panic(name)
+	}
+	for _, m := range [][2]string{{"hash", "struct-optkey"}, {"hash", "struct-tree"}, {"array", "tuple"}, {"variant", "array"}, {"variant-struct", "struct-optkey"},
+		{"struct-optval", "struct-optkey"}, {"array", "variant"}} {
+		m := m
+		add("rec2.mixed."+m[0]+"."+m[1],
+			func(top func(*GT) *GT) *GSpec { return one("rec-"+m[0], kind(m[0])(self, gInt), top(self)) },
+			func(top func(*GT) *GT) *GSpec { return one("rec-"+m[1], kind(m[1])(self, gStr), top(self)) })
+	}
+	// mutually recursive pairs
+	mutual := func(b0, b1 func(leaf *GT) *GT) func(leaf *GT) func(top func(*GT) *GT) *GSpec {
+		return func(leaf *GT) func(top func(*GT) *GT) *GSpec {
+			return func(top func(*GT) *GT) *GSpec {
+				return &GSpec{Fam: "rec-mutual", Route: "parsed", Bodies: []*GT{b0(leaf), b1(leaf)}, Top: top(self)}
+			}
+		}
+	}
+	m1 := mutual(func(leaf *GT) *GT { return gStruct([]string{"v", "?p"}, leaf, gAl(1)) },
+		func(leaf *GT) *GT { return gStruct([]string{"?q", "w"}, gAl(0), gInt) })
+	m2 := mutual(func(leaf *GT) *GT { return gStruct([]string{"?p", "v"}, gAl(1), gInt) },
+		func(leaf *GT) *GT { return gW("Array", gW("Variant", leaf, gAl(0))) })
+	m3 := mutual(func(leaf *GT) *GT { return gW("Tuple", gInt, gW("Optional", gAl(1))) },
+		func(leaf *GT) *GT { return gW("Hash", gStr, gW("Variant", leaf, gAl(0))) })
+	add("rec2.mutual.struct-struct", m1(gInt), m1(gStr))
+	add("rec2.mutual.struct-array", m2(gInt), m2(gStr))
+	add("rec2.mutual.tuple-hash", m3(gInt), m3(gStr))
 	return out
 }
 
@@ -515,6 +718,42 @@ func walkCaseTerm(w walkObs, asg bool, o descObs) string {
 	return fmt.Sprintf("(%s, %s, %s, %s, %s)", w.Env, w.Top, w.Visits, lib.GBool(asg), stageOf(o))
 }
 
+// descentsOf: for every mismatch the number of path elements below the subject that are not of kind variant - each
+// of them is made together with a descent into the actual type
+func descentsOf(o descObs) []string {
+	ds := make([]string, len(o.MS))
+	for i, m := range o.MS {
+		n := 0
+		for _, pe := range m.Path {
+			if pe.Kind != "" && pe.Kind != "variant" {
+				n++
+			}
+		}
+		ds[i] = lib.GNat(n)
+	}
+	return ds
+}
+
+// actualCaseTerm: (resolved types of the aliases met in the actual type, the actual type, the descents of the
+// observed description) for Model/DescribeActual.v; "" when the actual type is outside the universe of the model
+// or the structured call crashed
+func actualCaseTerm(a px.Type, o descObs) string {
+	if o.HCrash != "" {
+		return ""
+	}
+	w := &walkEnv{idx: map[*types.TypeAliasType]int{}, ok: true}
+	top := ""
+	if _, crash := lat.Guarded(func() bool { top = w.term(a); return true }); crash != "" || !w.ok {
+		return ""
+	}
+	return fmt.Sprintf("(%s, %s, %s)", lib.GList(w.bodies, "aty"), top, lib.GList(descentsOf(o), "nat"))
+}
+
+func newActualCases() *lib.CasesFile {
+	return &lib.CasesFile{Imports: []string{"Model.Base", "Model.DescribeWalk", "Model.DescribeActual", "Corr.CorrC19"}, Typ: "actual_case",
+		Obligations: map[string]string{"actual_model": "actual_mismatches cases"}}
+}
+
 func newWalkCases() *lib.CasesFile {
 	return &lib.CasesFile{Imports: []string{"Model.Base", "Model.DescribeWalk", "Corr.CorrC19"}, Typ: "walk_case",
 		Obligations: map[string]string{"walk_model": "walk_mismatches cases"}}
@@ -524,13 +763,16 @@ func newWalkCases() *lib.CasesFile {
 
 type aReq struct {
 	G   *GSpec `json:"g"`
-	Act string `json:"act,omitempty"` // an actual type (text), "twin" or "twin-resolved"
+	AG  *GSpec `json:"ag,omitempty"`  // the graph of the actual type (Act = "graph": its top type, "graph-resolved": what that resolves to)
+	Act string `json:"act,omitempty"` // an actual type (text), "twin", "twin-resolved", "graph" or "graph-resolved"
 	Val string `json:"val,omitempty"` // or a value: str | arr | hash
 }
 
 type aReply struct {
 	Violations []lib.Violation `json:"violations"`
 	Case       string          `json:"case,omitempty"` // the walk case (Gallina) when the graph lies in the model
+	ACase      string          `json:"acase,omitempty"` // the actual-side case (Gallina) when the actual type lies in the model
+	Actual     string          `json:"actual,omitempty"`
 	Asg        bool            `json:"asg"`
 	Text       string          `json:"text"`
 	Expected   string          `json:"expected"`
@@ -541,7 +783,11 @@ type aReply struct {
 }
 
 func (r *aReq) input() map[string]interface{} {
-	return map[string]interface{}{"kind": "galias", "g": r.G, "act": r.Act, "val": r.Val}
+	in := map[string]interface{}{"kind": "galias", "g": r.G, "act": r.Act, "val": r.Val}
+	if r.AG != nil {
+		in["ag"] = r.AG
+	}
+	return in
 }
 
 // evalAlias makes the implementation calls of one request; stage is told before every call
@@ -589,6 +835,13 @@ func evalAlias(r *aReq, stage func(string)) (rep aReply) {
 			if al, ok := a.(*types.TypeAliasType); ok {
 				a = al.ResolvedType()
 			}
+		case "graph":
+			a = r.AG.Build()
+		case "graph-resolved":
+			a = r.AG.Build()
+			if al, ok := a.(*types.TypeAliasType); ok {
+				a = al.ResolvedType()
+			}
 		default:
 			a = px.CurrentContext().ParseType(r.Act)
 		}
@@ -609,7 +862,8 @@ func evalAlias(r *aReq, stage func(string)) (rep aReply) {
 	at := ""
 	lat.Guarded(func() bool { at = a.String(); return true })
 	o := checkPair(res, e, a, de, xDecode(a), asg, in, rep.Expected, at)
-	rep.Text = o.Text
+	rep.Text, rep.Actual = o.Text, at
+	rep.ACase = actualCaseTerm(a, o)
 	stage("AssertType")
 	ao := observeAssert(func() { px.AssertType(subject, e, a) })
 	if ao.Crash != "" || ao.Returned != asg || (!ao.Returned && ao.Code != string(px.TypeMismatch)) {
@@ -628,6 +882,12 @@ func evalAlias(r *aReq, stage func(string)) (rep aReply) {
 
 // aworkerMain: one JSON request per line; answers "@<stage>" lines and then "=<reply JSON>"
 func aworkerMain() {
+	// the goroutine stack of a Go program is not bounded by `ulimit -s` but by the runtime (1 GB: minutes of work
+	// before an unbounded recursion dies - the describer copies its path at every level, so the work is quadratic in
+	// the depth): 8 MB is far above what the deepest graph of the generators needs (< 1 MB) and an unbounded
+	// recursion reaches it in well under a second - the runtime then ends the process with "fatal error: stack
+	// overflow", which the parent reports as a dead child
+	debug.SetMaxStack(8 << 20)
 	in := bufio.NewReaderSize(os.Stdin, 1<<20)
 	out := bufio.NewWriterSize(os.Stdout, 1<<20)
 	for {
@@ -767,6 +1027,9 @@ func (ar *aliasRunner) run(res *lib.Result, r *aReq) *aReply {
 		ar.minHang = n
 	}
 	against := "the actual type " + r.Act
+	if r.AG != nil {
+		against = fmt.Sprintf("an actual type that is a different graph of %d type aliases (%s; %s)", len(r.AG.Bodies), r.AG.Fam, r.Act)
+	}
 	if r.Val != "" {
 		against = "a value (" + r.Val + ")"
 	}
@@ -792,6 +1055,11 @@ func runAlias(cfg *lib.Config, res *lib.Result, rng *lib.Rng, u *lat.Universe) {
 	}
 	defer ar.close()
 	cf := newWalkCases()
+	type actualCase struct {
+		term string
+		in   interface{}
+	}
+	var actualCases []actualCase
 	maxVisits, maxAliases := 0, 0
 	for gi, g := range graphs {
 		res.Count("galias." + g.Fam + "." + g.Route)
@@ -849,12 +1117,73 @@ func runAlias(cfg *lib.Config, res *lib.Result, rng *lib.Rng, u *lat.Universe) {
 			if rep.Case != "" && (ri == 0 || ri == 3 || len(g.Bodies) <= 2 || r.Act == "twin-resolved") {
 				cf.Add(rep.Case, r.input())
 			}
+			// the actual side (Model/DescribeActual.v): the structured actual types, for every third graph
+			if rep.ACase != "" && ri >= 2 && (gi%3 == 0 || g.Twin) {
+				actualCases = append(actualCases, actualCase{rep.ACase, r.input()})
+			}
 			if gi%97 == 5 && ri == 2 {
 				res.Sample(map[string]interface{}{"expected": rep.Expected, "aliases": rep.NEnv, "visits": rep.NVisit, "actual": r.Act, "text": rep.Text})
 			}
 		}
 	}
+	// both sides graphs of aliases, two different declarations
+	acf := newActualCases()
+	for _, c := range actualCases {
+		acf.Add(c.term, c.in)
+	}
+	pairs := aliasPairs(lib.NewRng(cfg.Seed+1919), graphs, cfg.Thorough())
+	hangs0 := ar.hangs
+	famHangs := map[string]int{} // calls that did not come back, per family: two pinned inputs per family, 12 per run
+	for pi, p := range pairs {
+		fam := strings.SplitN(p.Fam, ".", 3)
+		res.Count("galias2." + strings.Join(fam[:len(fam)-1], "."))
+		acts := []string{"graph", "graph-resolved"}
+		if fam[0] == "leaf-twin" {
+			acts = acts[:1+pi%2]
+		}
+		for _, act := range acts {
+			famKey := strings.Join(fam[:len(fam)-1], ".")
+			if ar.hangs-hangs0 >= 4*maxHangs || famHangs[famKey] >= 2 {
+				res.Count("galias2.skipped-after-hangs")
+				continue
+			}
+			r := &aReq{G: p.E, AG: p.A, Act: act}
+			rep := ar.run(res, r)
+			if rep == nil {
+				famHangs[famKey]++
+				continue
+			}
+			res.Count("galias2.outcome." + strings.SplitN(rep.Outcome, ":", 2)[0])
+			if rep.Outcome != "desc" {
+				o := rep.Outcome
+				if len(o) > 90 {
+					o = o[:90]
+				}
+				res.Count("galias2.unusable." + fam[0] + "." + o)
+				continue
+			}
+			if rep.Asg {
+				res.Count("galias2.assignable")
+			} else {
+				res.Count("galias2.not-assignable")
+				res.Nontrivial("gp:" + p.E.String() + "/" + p.A.String() + "/" + act)
+			}
+			if rep.ACase != "" {
+				res.Count("galias2.actual-case")
+				acf.Add(rep.ACase, r.input())
+			} else {
+				res.Count("galias2.actual-outside-the-model")
+			}
+			if rep.Case != "" && fam[0] != "leaf-twin" && act == "graph" {
+				cf.Add(rep.Case, r.input())
+			}
+			if pi%97 == 11 {
+				res.Sample(map[string]interface{}{"expected": rep.Expected, "actual": rep.Actual, "family": p.Fam, "text": rep.Text})
+			}
+		}
+	}
 	ar.close()
+	res.Extra["alias_graph_pairs"] = len(pairs)
 	res.Extra["alias_graphs"] = len(graphs)
 	res.Extra["alias_graph_max_aliases"] = maxAliases
 	res.Extra["alias_graph_max_visits"] = maxVisits
@@ -891,6 +1220,32 @@ func runAlias(cfg *lib.Config, res *lib.Result, rng *lib.Rng, u *lat.Universe) {
 			inProc(e, xInput("xdesc", s, xl(bin)))
 		}
 	}
+	// the actual side for pairs of the lattice pool: every tenth type against three structured actual types
+	var structured []int
+	for j := range u.L {
+		switch u.Dec[j].K {
+		case "Struct", "Tuple", "Array", "Hash", "Alias", "Callable", "Optional", "Variant":
+			structured = append(structured, j)
+		}
+	}
+	for i := range u.L {
+		if i%10 != 0 || len(structured) == 0 {
+			continue
+		}
+		for k := 0; k < 3; k++ {
+			j := structured[(i*7+k*131+5)%len(structured)]
+			e, a := u.L[i], u.L[j]
+			var o descObs
+			if _, crash := lat.Guarded(func() bool { o = describe(e, a); return true }); crash != "" {
+				continue
+			}
+			if t := actualCaseTerm(a, o); t != "" {
+				res.Count("actual.pool-pair")
+				acf.Add(t, map[string]interface{}{"kind": "desc", "a": u.Specs[i], "b": u.Specs[j]})
+			}
+		}
+	}
+	res.CorrFiles = append(res.CorrFiles, acf.WriteTo(cfg.Out, "cases_actual_0"))
 	// two files: the driver evaluates them in parallel
 	half := [2]*lib.CasesFile{newWalkCases(), newWalkCases()}
 	for i := range cf.Cases {
@@ -902,7 +1257,7 @@ func runAlias(cfg *lib.Config, res *lib.Result, rng *lib.Rng, u *lat.Universe) {
 }
 
 // replayAlias replays one recorded alias-graph input, in a child under the deadline
-func replayAlias(res *lib.Result, in interface{}, cf *lib.CasesFile) bool {
+func replayAlias(res *lib.Result, in interface{}, cf, acf *lib.CasesFile) bool {
 	var x struct {
 		Kind string `json:"kind"`
 		aReq
@@ -914,12 +1269,21 @@ func replayAlias(res *lib.Result, in interface{}, cf *lib.CasesFile) bool {
 	ar := &aliasRunner{deadline: 10 * time.Second}
 	defer ar.close()
 	fmt.Printf("expected: a graph of %d aliases (%s, route %s); actual = %q value = %q\n", len(x.G.Bodies), x.G.Fam, x.G.Route, x.Act, x.Val)
+	if x.AG != nil {
+		fmt.Printf("actual: a graph of %d aliases (%s, route %s)\n", len(x.AG.Bodies), x.AG.Fam, x.AG.Route)
+	}
 	before := len(res.Violations)
 	rep := ar.run(res, &x.aReq)
 	if rep != nil {
 		fmt.Printf("expected = %s\nIsAssignable = %v\ntext/detail = %q\naliases = %d, visits of Accept = %d (alias visits %d)\n", rep.Expected, rep.Asg, rep.Text, rep.NEnv, rep.NVisit, rep.NAlias)
+		if rep.Actual != "" {
+			fmt.Printf("actual = %s\n", rep.Actual)
+		}
 		if rep.Case != "" {
 			cf.Add(rep.Case, in)
+		}
+		if rep.ACase != "" {
+			acf.Add(rep.ACase, in)
 		}
 	}
 	if len(res.Violations) > before {
